@@ -295,6 +295,8 @@ pub fn run(tier: &str) -> i32 {
         name: String::new(),
         writers: vec![vec![(1, 0), (3, 1)], vec![(2, 1), (4, 0)]],
         after_restart: vec![],
+        max_crashes: 1,
+        after_restart2: vec![],
         flush_row_count: 2,
         max_segment_size: 64 << 20,
         ticks: 1,
